@@ -1,6 +1,7 @@
 package main
 
 import (
+	"regexp"
 	"fmt"
 	"go/token"
 	"go/types"
@@ -116,8 +117,49 @@ func (c *Ctx) walletConfigFlow() {
 		if f == nil {
 			continue
 		}
+		// the options may be assembled in the entry point or in an unexported helper both entry points share; in
+		// the helper the parameters are named by their position there and translated back through the call
+		tr := func(s string) string { return s }
+		if len(callsTo(f, modPath+"/wallet.newWallet")) == 0 {
+			for _, ci := range callsIn(f) {
+				cl, ok := ci.(*ssa.Call)
+				if !ok {
+					continue
+				}
+				h := plainHelper(cl.Call.StaticCallee())
+				if h == nil || len(callsTo(h, modPath+"/wallet.newWallet")) == 0 {
+					continue
+				}
+				m := map[string]string{}
+				for i, a := range cl.Call.Args {
+					if pp, ok := stripConv(a).(*ssa.Parameter); ok && pp.Parent() == f {
+						m[fmt.Sprintf("#%d", i)] = paramPos(pp)
+					} else {
+						m[fmt.Sprintf("#%d", i)] = "#?"
+					}
+				}
+				tr = func(s string) string {
+					return regexp.MustCompile(`#\d+`).ReplaceAllStringFunc(s, func(t string) string {
+						if v, ok := m[t]; ok {
+							return v
+						}
+						return "#?"
+					})
+				}
+				f = h
+				break
+			}
+		}
+		trAll := func(xs []string) string {
+			var out []string
+			for _, x := range xs {
+				out = append(out, tr(x))
+			}
+			sort.Strings(out)
+			return strings.Join(out, ",")
+		}
 		for _, cl := range callsTo(f, modPath+"/wallet.newWallet") {
-			got := []string{strings.Join(leaves(cl.Call.Args[0]), ","), strings.Join(leaves(cl.Call.Args[1]), ","), strings.Join(leaves(cl.Call.Args[2]), ",")}
+			got := []string{trAll(leaves(cl.Call.Args[0])), trAll(leaves(cl.Call.Args[1])), trAll(leaves(cl.Call.Args[2]))}
 			want := []string{px("key,ver,networkGlobalID,workchain,subWalletId", "key"), px("key,ver,networkGlobalID,workchain,subWalletId", "ver"), px("key,ver,networkGlobalID,workchain,subWalletId", "networkGlobalID,subWalletId,workchain")}
 			c.check(fmt.Sprint(got) == fmt.Sprint(want), R, name+" passes key, version and all three options to newWallet", cl.Pos(), fmt.Sprint(got),
 				fmt.Sprintf("%s calls newWallet(key<-{%s}, ver<-{%s}, options<-{%s}); every one of key, ver, networkGlobalID, workchain, subWalletId must reach it", name, got[0], got[1], got[2]))
@@ -126,7 +168,7 @@ func (c *Ctx) walletConfigFlow() {
 		pairs := map[string]string{}
 		for _, q := range []string{"WithWorkchain", "WithNetworkGlobalID", "WithSubWalletID"} {
 			for _, cl := range callsTo(f, modPath+"/wallet."+q) {
-				pairs[q] = strings.Join(leaves(cl.Call.Args[0]), ",")
+				pairs[q] = trAll(leaves(cl.Call.Args[0]))
 			}
 		}
 		// an option is applied exactly when its pointer parameter is non-nil (no further condition on the value)
@@ -690,12 +732,14 @@ func (c *Ctx) seedRules() {
 		if f == nil {
 			continue
 		}
-		for _, cl := range callsTo(f, "golang.org/x/crypto/pbkdf2.Key") {
-			salt, _ := constString(stripConv(cl.Call.Args[1]))
-			it, _ := constInt(cl.Call.Args[2])
-			kl, _ := constInt(cl.Call.Args[3])
-			if salt == "TON seed version" {
-				sig = append(sig, fmt.Sprintf("%s/%d/%d", salt, it, kl))
+		for _, g := range c.helperClosure(f, 2, func(h *ssa.Function) bool { return plainHelper(h) == nil }) {
+			for _, cl := range callsTo(g, "golang.org/x/crypto/pbkdf2.Key") {
+				salt, _ := constString(stripConv(cl.Call.Args[1]))
+				it, _ := constInt(cl.Call.Args[2])
+				kl, _ := constInt(cl.Call.Args[3])
+				if salt == "TON seed version" {
+					sig = append(sig, fmt.Sprintf("%s/%d/%d", salt, it, kl))
+				}
 			}
 		}
 	}
